@@ -147,32 +147,39 @@ structure FinderFlags where
 
 def firstLayouts (layout : Str) : Bool := layout == TRS_DESC || layout == S_DESC_TR
 
-/-- `TwpRgeFinder(txt, layout)` -/
-def twprgeFinder (mc : MC) (txt : Str) (layout : Str) : M (List TRMatch × FinderFlags) := do
-  let mut out : List TRMatch := []
-  let mut ff : FinderFlags := {}
-  let mut j := 0
-  for mo in twprge.rx.finditer txt do
-    let nat ← unpackTwprge twprge mo txt mc.ns mc.ew false
+structure TRFindSt where
+  out : List TRMatch := []
+  ff : FinderFlags := {}
+  j : Nat := 0
+
+/-- the rightmost section match between `j` and `i` (and the new `j`): `for sec_mo in finditer(txt, pos=j, endpos=i)` -/
+def lastSecBefore (txt : Str) (j i : Nat) : Option Match × Nat :=
+  (multisec.rx.finditer txt j i).foldl (fun acc sm => (some sm, sm.start)) (none, j)
+
+/-- one iteration of `findall_matching_twprge` -/
+def trFindStep (mc : MC) (txt : Str) (layout : Str) (st : TRFindSt) (mo : Match) : M TRFindSt :=
+  match unpackTwprge twprge mo txt mc.ns mc.ew false with
+  | .error e => .error e
+  | .ok nat =>
     let short := twprgeNaturalToShort nat
     if layout == DESC_STR || layout == TR_DESC_S || layout == COPY_ALL then
-      out := out ++ [⟨short, mo.start, mo.stop⟩]
+      .ok { st with out := st.out ++ [⟨short, mo.start, mo.stop⟩] }
     else
-      let i := mo.start
-      let secs := multisec.rx.finditer txt j i
-      let mut last : Option Match := none
-      for sm in secs do
-        j := sm.start
-        last := some sm
+      let (last, j') := lastSecBefore txt st.j mo.start
       let legit := match last with
         | none => true
         | some sm => (Gen.sec_twprge_in_between.search (slice txt sm.start mo.stop)).isNone
-      if legit then out := out ++ [⟨short, mo.start, mo.stop⟩]
+      if legit then .ok { st with out := st.out ++ [⟨short, mo.start, mo.stop⟩], j := j' }
       else
         let flag := S "twprge_ignored<" ++ short ++ S ">"
-        let line := slice txt (i - 20) mo.stop
-        ff := { flags := ff.flags ++ [.str flag], lines := ff.lines ++ [.tup [.str flag, .str line]] }
-  return (out, ff)
+        let line := slice txt (mo.start - 20) mo.stop
+        .ok { st with j := j', ff := { flags := st.ff.flags ++ [.str flag], lines := st.ff.lines ++ [.tup [.str flag, .str line]] } }
+
+/-- `TwpRgeFinder(txt, layout)` -/
+def twprgeFinder (mc : MC) (txt : Str) (layout : Str) : M (List TRMatch × FinderFlags) :=
+  match (twprge.rx.finditer txt).foldlM (trFindStep mc txt layout) {} with
+  | .error e => .error e
+  | .ok st => .ok (st.out, st.ff)
 
 inductive ReqColon where
   | no | yes | cautious | secondPass
@@ -180,49 +187,60 @@ inductive ReqColon where
 
 def illegalWords : List Str := Gen.SECFINDER_ILLEGAL.map String.toList
 
+structure SecFindSt where
+  out : List SecMatch := []
+  ff : FinderFlags := {}
+  lastNums : List Str := []
+
+/-- one iteration of the `for sec_mo in multisec_regex.finditer(text)` loop -/
+def secFindStep (text : Str) (layout : Str) (needColon : Bool) (st : SecFindSt) (mo : Match) : M SecFindSt :=
+  let secTxt := mo.group0 text
+  let u := unpackSections secTxt
+  let nums := u.secList
+  let prior := pyRStrip (text.take mo.start)
+  let illegalPrior := illegalWords.any (fun w => pyEndsWith prior w)
+  let legit := !(firstLayouts layout && illegalPrior) && !(needColon && (multisec.group mo text "colon").isNone)
+  if !legit then
+    if nums.length > 1 then
+      let flag := S "multisec_ignored<" ++ pyJoin (S ",") nums ++ S ">"
+      .ok { st with lastNums := nums, ff := { flags := st.ff.flags ++ [.str flag], lines := st.ff.lines ++ [.tup [.str flag, .str secTxt]] } }
+    else match nums with
+      | n :: _ =>
+        let flag := S "sec_ignored<" ++ n ++ S ">"
+        .ok { st with lastNums := nums, ff := { flags := st.ff.flags ++ [.str flag], lines := st.ff.lines ++ [.tup [.str flag, .str secTxt]] } }
+      | [] => .error PyErr.indexError          -- `sec_nums[0]` on an empty list
+  else
+    let ff1 : FinderFlags := if isMulti multisec "sec" mo text == some true then
+        let flag := S "multisec_found<" ++ pyJoin (S ",") nums ++ S ">"
+        { flags := st.ff.flags ++ [.str flag], lines := st.ff.lines ++ [.tup [.str flag, .str secTxt]] }
+      else st.ff
+    .ok { out := st.out ++ [⟨u.secList, mo.start, mo.stop⟩], lastNums := nums,
+          ff := { flags := ff1.flags ++ u.flags, lines := ff1.lines ++ u.flagLines } }
+
 /-- one pass of `findall_matching_sec` -/
 def secFinderPass (text : Str) (layout : Str) (needColon : Bool) :
-    M (List SecMatch × FinderFlags × List Str) := do
-  let mut out : List SecMatch := []
-  let mut ff : FinderFlags := {}
-  let mut lastNums : List Str := []
-  for mo in multisec.rx.finditer text do
-    let secTxt := mo.group0 text
-    let nums := (unpackSections secTxt).secList
-    lastNums := nums
-    let prior := pyRStrip (text.take mo.start)
-    let illegalPrior := illegalWords.any (fun w => pyEndsWith prior w)
-    let mut legit := true
-    if firstLayouts layout && illegalPrior then legit := false
-    if needColon && (multisec.group mo text "colon").isNone then legit := false
-    if !legit then
-      let flag ← if nums.length > 1 then pure (S "multisec_ignored<" ++ pyJoin (S ",") nums ++ S ">")
-        else match nums with
-          | n :: _ => pure (S "sec_ignored<" ++ n ++ S ">")
-          | [] => throw PyErr.indexError
-      ff := { flags := ff.flags ++ [.str flag], lines := ff.lines ++ [.tup [.str flag, .str secTxt]] }
-    else
-      if isMulti multisec "sec" mo text == some true then
-        let flag := S "multisec_found<" ++ pyJoin (S ",") nums ++ S ">"
-        ff := { flags := ff.flags ++ [.str flag], lines := ff.lines ++ [.tup [.str flag, .str secTxt]] }
-      let u := unpackSections secTxt
-      ff := { flags := ff.flags ++ u.flags, lines := ff.lines ++ u.flagLines }
-      out := out ++ [⟨u.secList, mo.start, mo.stop⟩]
-  return (out, ff, lastNums)
+    M (List SecMatch × FinderFlags × List Str) :=
+  match (multisec.rx.finditer text).foldlM (secFindStep text layout needColon) {} with
+  | .error e => .error e
+  | .ok st => .ok (st.out, st.ff, st.lastNums)
 
 /-- `SecFinder(txt, layout, require_colon)` including the optional second pass -/
-def secFinder (text : Str) (layout : Str) (rc : ReqColon) : M (List SecMatch × FinderFlags) := do
+def secFinder (text : Str) (layout : Str) (rc : ReqColon) : M (List SecMatch × FinderFlags) :=
   let needColon := (rc == .yes || rc == .cautious) && firstLayouts layout
-  let (ms, ff, _) ← secFinderPass text layout needColon
-  if !ms.isEmpty then return (ms, ff)
-  if rc == .cautious && firstLayouts layout then
-    -- second pass: flags of the first pass are discarded
-    let (ms2, ff2, lastNums) ← secFinderPass text layout false
-    if !ms2.isEmpty then
-      let flag := S "pulled_sec_without_colon<" ++ pyJoin (S ",") lastNums ++ S ">"
-      return (ms2, { flags := ff2.flags ++ [.str flag], lines := ff2.lines ++ [.tup [.str flag, .str flag]] })
-    return (ms2, ff2)
-  return (ms, ff)
+  match secFinderPass text layout needColon with
+  | .error e => .error e
+  | .ok (ms, ff, _) =>
+    if !ms.isEmpty then .ok (ms, ff)
+    else if rc == .cautious && firstLayouts layout then
+      -- second pass: flags of the first pass are discarded
+      match secFinderPass text layout false with
+      | .error e => .error e
+      | .ok (ms2, ff2, lastNums) =>
+        if !ms2.isEmpty then
+          let flag := S "pulled_sec_without_colon<" ++ pyJoin (S ",") lastNums ++ S ">"
+          .ok (ms2, { flags := ff2.flags ++ [.str flag], lines := ff2.lines ++ [.tup [.str flag, .str flag]] })
+        else .ok (ms2, ff2)
+    else .ok (ms, ff)
 
 inductive Marker where
   | textStart | textEnd | secStart | secEnd | trStart | trEnd
@@ -320,30 +338,27 @@ def parseCopyAll (c : Chunk) (txt : Str) : M Chunk :=
 def sDescLays (layout : Str) : Bool := layout == TRS_DESC || layout == S_DESC_TR
 def trFirstLays (layout : Str) : Bool := layout == TRS_DESC || layout == TR_DESC_S
 
-/-- `_parse_meaningful`; a `None` working sec/twprge reaching `_stage_new_tract` is kept as
-    Python would keep it (the join later raises TypeError): modelled by `typeError`. -/
-def parseMeaningful (c : Chunk) (txt : Str) (layout : Str) (markers : List (Nat × Marker)) : M Chunk := do
-  let mut c := c
-  if !sDescLays layout then c := getNextSec c
-  if !trFirstLays layout then c := getNextTwprge c
-  let final := markers.length - 1
-  for count in List.range markers.length do
-    let (pos, ty) := markers[count]!
-    let (npos, nty) := markers[min final (count + 1)]!
-    if ty == .trStart then c := getNextTwprge c
-    else if ty == .secStart then c := getNextSec c
-    else if ty == .textEnd then pure ()
-    else
-      let block := slice txt pos npos
-      let isTract := (sDescLays layout && ty == .secEnd) || (!sDescLays layout && nty == .secStart)
-      if isTract then
-        -- prep_new_tract
-        let desc := cleanupDesc block
-        c := stage c desc c.workingSec c.workingTR
-        c := { c with lastSecUsed := true, lastTRUsed := true, workingSec := some [ERR_SEC] }
-      else
-        c := { c with unused := c.unused ++ [(c.comps.length, block)] }
-  return c
+/-- one marker of the walk in `_parse_meaningful` -/
+def walkStep (txt : Str) (layout : Str) (markers : List (Nat × Marker)) (c : Chunk) (count : Nat) : Chunk :=
+  let (pos, ty) := markers[count]!
+  let (npos, nty) := markers[min (markers.length - 1) (count + 1)]!
+  if ty == .trStart then getNextTwprge c
+  else if ty == .secStart then getNextSec c
+  else if ty == .textEnd then c
+  else
+    let block := slice txt pos npos
+    let isTract := (sDescLays layout && ty == .secEnd) || (!sDescLays layout && nty == .secStart)
+    if isTract then
+      -- prep_new_tract (a None working sec / Twp/Rge is staged as Python stages it)
+      let c1 := stage c (cleanupDesc block) c.workingSec c.workingTR
+      { c1 with lastSecUsed := true, lastTRUsed := true, workingSec := some [ERR_SEC] }
+    else { c with unused := c.unused ++ [(c.comps.length, block)] }
+
+/-- `_parse_meaningful` -/
+def parseMeaningful (c : Chunk) (txt : Str) (layout : Str) (markers : List (Nat × Marker)) : Chunk :=
+  let c := if !sDescLays layout then getNextSec c else c
+  let c := if !trFirstLays layout then getNextTwprge c else c
+  (List.range markers.length).foldl (walkStep txt layout markers) c
 
 /-- `rebuild_sec_within` -/
 def rebuildSecWithin (comps : List Component) (unused : List (Nat × Str)) (minLen : Nat) :
@@ -362,43 +377,37 @@ structure ParserCfg where
   secWithin : Bool
   deriving Inhabited
 
+/-- the inner loop of `gen_flags_chunk`: keep extending the context while another match of the same pattern starts
+    within `rcx` characters of the end of the last one; returns the end of the last match found -/
+def extendContext (p : Pat) (chunk : Str) (rcx : Nat) : Nat → Nat → Nat
+  | 0, lastEnd => lastEnd
+  | fuel+1, lastEnd =>
+    match p.rx.search chunk lastEnd (min chunk.length (lastEnd + rcx)) with
+    | none => lastEnd
+    | some m => extendContext p chunk rcx fuel m.stop
+
+/-- the `while True` loop of `gen_flags_chunk` for one pattern: (flag, context) pairs found from `startPos` on -/
+def triggerScan (p : Pat) (flag : Str) (chunk : Str) (lc rcx : Nat) : Nat → Nat → List (Str × Str)
+  | 0, _ => []
+  | fuel+1, startPos =>
+    match p.rx.search chunk startPos chunk.length with
+    | none => []
+    | some startMo =>
+      let finalEnd := extendContext p chunk rcx (chunk.length + 2) startMo.stop
+      let i := startMo.start - lc
+      let j := min (finalEnd + rcx) chunk.length
+      let ctx := S "<" ++ pyStrip (pyReplace (slice chunk i j) (S "\n") (S " ")) ++ S ">"
+      -- the next search starts at the end of this context string; a context that does not advance would loop for
+      -- ever in Python (it cannot happen for patterns of min_width ≥ 1: theorem C16_trigger_patterns_consume)
+      if j ≤ startPos && j ≤ startMo.start then [(flag, ctx)]
+      else (flag, ctx) :: triggerScan p flag chunk lc rcx fuel j
+
 /-- `gen_flags_chunk`: appends directly to the *parent's* warning flags -/
-def genFlagsChunk (chunk : Str) (fl : Tract.Flags) : Tract.Flags := Id.run do
-  let maxEnd := chunk.length
-  let mut fl := fl
-  for row in Gen.GEN_FLAGS_TABLE do
-    let (rxName, flagS, lc, rcx) := row
-    let p := findPat rxName
-    let flag := S flagS
-    let mut startPos := 0
-    let mut fuel := chunk.length + 2
-    let mut go := true
-    while go && fuel > 0 do
-      fuel := fuel - 1
-      match p.rx.search chunk startPos maxEnd with
-      | none => go := false
-      | some startMo =>
-        -- extend the context rightward while further matches are found
-        let mut endMo := startMo
-        let mut finalEnd := startMo
-        let mut fuel2 := chunk.length + 2
-        let mut go2 := true
-        while go2 && fuel2 > 0 do
-          fuel2 := fuel2 - 1
-          let lb := endMo.stop
-          let rb := min maxEnd (endMo.stop + rcx)
-          match p.rx.search chunk lb rb with
-          | none => go2 := false
-          | some m => endMo := m; finalEnd := m
-        let i := startMo.start - lc
-        let j := min (finalEnd.stop + rcx) maxEnd
-        let ctx := pyStrip (pyReplace (slice chunk i j) (S "\n") (S " "))
-        let ctx := S "<" ++ ctx ++ S ">"
-        fl := { fl with w := fl.w ++ [.str flag], wl := fl.wl ++ [.tup [.str flag, .str ctx]] }
-        -- a zero-width context cannot occur for min_width ≥ 1 patterns; guard the loop anyway
-        if j ≤ startPos && j ≤ startMo.start then go := false
-        startPos := j
-  return fl
+def genFlagsChunk (chunk : Str) (fl : Tract.Flags) : Tract.Flags :=
+  let found : List (Str × Str) := Gen.GEN_FLAGS_TABLE.flatMap (fun row =>
+    triggerScan (findPat row.1) (S row.2.1) chunk row.2.2.1 row.2.2.2 (chunk.length + 2) 0)
+  { fl with w := fl.w ++ found.map (fun fc => PyVal.str fc.1),
+            wl := fl.wl ++ found.map (fun fc => PyVal.tup [.str fc.1, .str fc.2]) }
 
 structure ParentSt where
   fl : Tract.Flags := {}
@@ -406,71 +415,83 @@ structure ParentSt where
   unused : List (Nat × Str) := []
   deriving Inhabited
 
-/-- `parse_chunk` proper (without hand-off); `copyAll` = the ChunkParser was created with layout COPY_ALL -/
-def parseChunkCore (mc : MC) (pc : ParserCfg) (text : Str) (copyAll : Bool) (parentLayout : Str) : M Chunk := do
-  let chunkLayout : Str :=
-    if copyAll then COPY_ALL
-    else if pc.mandateLayout then parentLayout
-    else deduceLayout text
-  let (trs, tff) ← twprgeFinder mc text chunkLayout
-  let (secs, sff) ← secFinder text chunkLayout pc.requireColon
-  let mut c : Chunk := {}
-  c := { c with fl := { c.fl with w := tff.flags ++ sff.flags, wl := tff.lines ++ sff.lines } }
-  let markers := populateMarkers text.length secs trs
-  c := { c with secList := secs.map (·.secs), trList := trs.map (·.twprge) }
-  if chunkLayout == COPY_ALL then
-    return (← parseCopyAll c text)
-  c ← parseMeaningful c text chunkLayout markers
-  -- put unused twprge / sec back
-  match c.workingTR with
-  | some w => if !c.lastTRUsed && w != ERR_TWPRGE then c := { c with trList := w :: c.trList }
-  | none => pure ()
-  match c.workingSec with
-  | some w => if !c.lastSecUsed && w != [ERR_SEC] then c := { c with secList := w :: c.secList }
-  | none => pure ()
-  for t in c.trList do
-    let flag := S "unused_twprge<" ++ t ++ S ">"
-    c := addE c flag flag
-  for sl in c.secList do
-    let flag := S "unused_sec<" ++ pyJoin (S ",") sl ++ S ">"
-    c := addE c flag flag
+def chunkLayoutOf (pc : ParserCfg) (text : Str) (copyAll : Bool) (parentLayout : Str) : Str :=
+  if copyAll then COPY_ALL
+  else if pc.mandateLayout then parentLayout
+  else deduceLayout text
+
+/-- what `parse_chunk` does after `_parse_meaningful`: re-queue unused Twp/Rge / sections, flag them, sec_within -/
+def finishChunk (pc : ParserCfg) (c : Chunk) : Chunk :=
+  let c := match c.workingTR with
+    | some w => if !c.lastTRUsed && w != ERR_TWPRGE then { c with trList := w :: c.trList } else c
+    | none => c
+  let c := match c.workingSec with
+    | some w => if !c.lastSecUsed && w != [ERR_SEC] then { c with secList := w :: c.secList } else c
+    | none => c
+  let c := c.trList.foldl (fun c t => addE c (S "unused_twprge<" ++ t ++ S ">") (S "unused_twprge<" ++ t ++ S ">")) c
+  let c := c.secList.foldl (fun c sl =>
+      addE c (S "unused_sec<" ++ pyJoin (S ",") sl ++ S ">") (S "unused_sec<" ++ pyJoin (S ",") sl ++ S ">")) c
   if pc.secWithin then
-    let (cs, un) := rebuildSecWithin c.comps c.unused Gen.MIN_REPORTABLE_UNUSED_LEN
-    c := { c with comps := cs, unused := un }
-  return c
+    let r := rebuildSecWithin c.comps c.unused Gen.MIN_REPORTABLE_UNUSED_LEN
+    { c with comps := r.1, unused := r.2 }
+  else c
+
+/-- `parse_chunk` proper (without hand-off); `copyAll` = the ChunkParser was created with layout COPY_ALL -/
+def parseChunkCore (mc : MC) (pc : ParserCfg) (text : Str) (copyAll : Bool) (parentLayout : Str) : M Chunk :=
+  let chunkLayout := chunkLayoutOf pc text copyAll parentLayout
+  match twprgeFinder mc text chunkLayout with
+  | .error e => .error e
+  | .ok (trs, tff) =>
+    match secFinder text chunkLayout pc.requireColon with
+    | .error e => .error e
+    | .ok (secs, sff) =>
+      let c : Chunk := { fl := { w := tff.flags ++ sff.flags, wl := tff.lines ++ sff.lines },
+                         secList := secs.map (·.secs), trList := trs.map (·.twprge) }
+      if chunkLayout == COPY_ALL then parseCopyAll c text
+      else
+        let markers := populateMarkers text.length secs trs
+        .ok (finishChunk pc (parseMeaningful c text chunkLayout markers))
 
 /-- ChunkParser(text, layout, parent): parse, fall back to copy_all, generate flags, hand off -/
 def chunkParser (mc : MC) (pc : ParserCfg) (text : Str) (copyAll : Bool) (parentLayout : Str)
-    (parent : ParentSt) : M ParentSt := do
-  let c ← parseChunkCore mc pc text copyAll parentLayout
-  let c ← if c.comps.isEmpty then parseChunkCore mc pc text true parentLayout else pure c
-  let pfl := genFlagsChunk text parent.fl
-  return { fl := { w := pfl.w ++ c.fl.w, wl := pfl.wl ++ c.fl.wl, e := pfl.e ++ c.fl.e, el := pfl.el ++ c.fl.el },
-           comps := parent.comps ++ c.comps, unused := parent.unused ++ c.unused }
+    (parent : ParentSt) : M ParentSt :=
+  match parseChunkCore mc pc text copyAll parentLayout with
+  | .error e => .error e
+  | .ok c0 =>
+    match (if c0.comps.isEmpty then parseChunkCore mc pc text true parentLayout else .ok c0) with
+    | .error e => .error e
+    | .ok c =>
+      let pfl := genFlagsChunk text parent.fl
+      .ok { fl := { w := pfl.w ++ c.fl.w, wl := pfl.wl ++ c.fl.wl, e := pfl.e ++ c.fl.e, el := pfl.el ++ c.fl.el },
+            comps := parent.comps ++ c.comps, unused := parent.unused ++ c.unused }
 
 /-! ### PLSSChunker -/
 
-def plssChunker (mc : MC) (text : Str) (layout : Str) : M (List Str × List (Nat × Str)) := do
-  let (ms, _) ← twprgeFinder mc text layout
-  if ms.isEmpty || layout == COPY_ALL then return ([text], [])
-  let n := ms.length
-  if layout == TRS_DESC || layout == TR_DESC_S then
-    let mut blocks : List Str := []
-    let mut unused : List (Nat × Str) := []
-    for i in List.range n do
-      let m := ms[i]!
-      let nextStart := match ms[i+1]? with | some m2 => m2.start | none => text.length
-      if i == 0 && m.start != 0 then unused := unused ++ [(0, text.take m.start)]
-      blocks := blocks ++ [cleanupDesc (slice text m.start nextStart)]
-    return (blocks, unused)
-  else
-    let mut blocks : List Str := []
-    let mut unused : List (Nat × Str) := []
-    for i in List.range n do
-      let m := ms[i]!
-      let prevEnd := if i == 0 then 0 else (ms[i-1]!).stop
-      if i == n - 1 && m.stop != text.length then unused := unused ++ [(1, text.drop m.stop)]
-      blocks := blocks ++ [cleanupDesc (slice text prevEnd m.stop)]
-    return (blocks, unused)
+/-- `_segment_twprge_first` / `_segment_twprge_last` for the i-th match -/
+def chunkBlocksFirst (text : Str) (ms : List TRMatch) : List Str :=
+  (List.range ms.length).map (fun i =>
+    let nextStart := match ms[i+1]? with | some m2 => m2.start | none => text.length
+    cleanupDesc (slice text (ms[i]!).start nextStart))
+
+def chunkBlocksLast (text : Str) (ms : List TRMatch) : List Str :=
+  (List.range ms.length).map (fun i =>
+    let prevEnd := if i == 0 then 0 else (ms[i-1]!).stop
+    cleanupDesc (slice text prevEnd (ms[i]!).stop))
+
+def plssChunker (mc : MC) (text : Str) (layout : Str) : M (List Str × List (Nat × Str)) :=
+  match twprgeFinder mc text layout with
+  | .error e => .error e
+  | .ok (ms, _) =>
+    if ms.isEmpty || layout == COPY_ALL then .ok ([text], [])
+    else if layout == TRS_DESC || layout == TR_DESC_S then
+      let unused := match ms.head? with
+        | some m => if m.start != 0 then [(0, text.take m.start)] else []
+        | none => []
+      .ok (chunkBlocksFirst text ms, unused)
+    else
+      let unused := match ms.getLast? with
+        | some m => if m.stop != text.length then [(1, text.drop m.stop)] else []
+        | none => []
+      .ok (chunkBlocksLast text ms, unused)
 
 end PyTRS.Plss
